@@ -149,6 +149,8 @@ class ReadElementStatus(SCSICommand):
 
             decode_bits(data, cls._element_status_page_bits, _r)
             _d = data[8 : 8 + _bc]
+            if len(_d) and not _edl:
+                raise ValueError("element descriptor length of zero with descriptors present")
             _ed = []
             while len(_d):
                 _rr = {}
